@@ -134,5 +134,8 @@ func (k Keeper) ConvertDappPoolTx(
 	if err != nil {
 		return sdk.Coin{}, err
 	}
+	// the redemption stored a new TotalBond; when source and target are the same dapp the copy
+	// read by the caller is stale, so read the target again
+	dapp2 = k.GetDapp(ctx, dapp2.Name)
 	return k.SwapDappPoolTx(ctx, addr, dapp2, dapp2.PoolFee.Quo(sdk.NewDec(2)), swapBond)
 }
